@@ -40,7 +40,15 @@ func Bool(name string) bool { return get(name) != 0 }
 func Int(name string) int   { return int(int64(get(name))) }
 func Rune(name string) rune { return rune(int32(get(name))) }
 func IntRange(name string, lo, hi int) int {
-	v := Int(name)
+	if hi < lo {
+		panic(AssumeFailed{})
+	}
+	var v int
+	if hi-lo <= 255 {
+		v = lo + int(byte(get(name))) // small ranges are encoded as an 8-bit offset from lo
+	} else {
+		v = int(int64(get(name)))
+	}
 	if v < lo || v > hi {
 		panic(AssumeFailed{})
 	}
